@@ -1611,6 +1611,23 @@ class GhostMap:
     pass
 
 
+class GhostDict:
+    """A dict whose content the engine does not track (filled by a loop with a symbolic trip count). Every store is handed to the
+    contract's store protocol  contract.store_hooks[<variable>](ex, st, key, value, node), which states what each entry must satisfy."""
+
+    def __init__(self, name):
+        self.name = name
+
+    def pyvc_havoc(self):
+        return self
+
+    def pyvc_setitem(self, ex, st, idx, value, node, prims):
+        hook = getattr(ex.contract, "store_hooks", {}).get(self.name)
+        if hook is not None:
+            hook(ex, st, idx, value, node)
+        return self
+
+
 class Record:
     """An abstract record (configuration-level execution): fields are concrete or symbolic values."""
 
